@@ -271,6 +271,9 @@ func IsSet(v reflect.Value) bool {
 	case reflect.Ptr, reflect.Map:
 		return !v.IsNil()
 	case reflect.Slice:
+		if v.Type().Name() == "Binary" {
+			return !v.IsNil() // a zero-length binary value is set
+		}
 		return !v.IsNil() && v.Len() > 0
 	case reflect.Int64:
 		return v.Int() != 0
